@@ -61,6 +61,8 @@ def outcome(job):
                 from engine.resolve import Resolver
                 R = Resolver(it, s)
                 kern = canon([R.resolve(b.stores[0].value) if len(b.stores) == 1 else None for (_, _, _, b) in yuv_planes(ctx, s, v.fields[0])])
+        elif not isinstance(v, EnumV):
+            kinds.add(('Ok',))            # an infallible conversion (plain value, not a Result)
         else:
             kinds.add(('Err', err_name(ctx.crate, v)))
     if len(kinds) != 1:
